@@ -137,6 +137,14 @@ func prepare(repo, verif string) (*load.Program, error) {
 		notes = append(notes, "rename followed: "+n)
 	}
 	prog.Notes = notes
+	prog.RefFields = map[string]map[string]bool{}
+	for _, sa := range table.Structs {
+		m := map[string]bool{}
+		for _, f := range sa.Fields {
+			m[f[0]] = true
+		}
+		prog.RefFields[sa.Pkg+"."+sa.Name] = m
+	}
 	return prog, nil
 }
 
